@@ -315,3 +315,49 @@ def rule_fresh_bond_names(ctx):
                     r.skip(f"{f.qualname}@{c.lineno}", f"bond name `{src_of(v)}` provenance not followed")
     r.floor(n, 5, "bond_ind= sites in gating.py")
     return r
+
+
+def rule_nonlocal_factorisation(ctx):
+    r = RuleResult(
+        "nonlocal-factorisation",
+        "MatrixProductState.gate_nonlocal factorises the dense gate into a sub-MPO before applying it: that factorisation is itself a "
+        "truncating split with its own default cutoff and its own default site tags, so the call receives (i) the state's site_tag_id — "
+        "otherwise the gate tensors carry foreign tags on a state with custom tags — and (ii) the caller's `cutoff` whenever one is "
+        "given (keyword, or a dict that was filled from compress_opts['cutoff']) — otherwise cutoff=0.0 does not mean exact",
+    )
+    f = ctx.prog.func("quimb.tensor.tn1d.core", "MatrixProductState.gate_nonlocal")
+    if f is None:
+        raise AnalysisError("nonlocal-factorisation: MatrixProductState.gate_nonlocal not found")
+    calls = [c for c in ast.walk(f.node) if isinstance(c, ast.Call) and isinstance(c.func, ast.Attribute) and c.func.attr == "from_dense"]
+    if not calls:
+        raise AnalysisError("nonlocal-factorisation: gate_nonlocal no longer factorises the gate with from_dense")
+    kwparam = f.node.args.kwarg.arg if f.node.args.kwarg else None
+    for c in calls:
+        where = f"{f.module.relpath}:{c.lineno}"
+        kws = {k.arg: k.value for k in c.keywords if k.arg}
+        stars = [k.value.id for k in c.keywords if k.arg is None and isinstance(k.value, ast.Name)]
+        # (i) tags
+        tag_ok = "site_tag_id" in kws and any(isinstance(y, ast.Name) and y.id == "self" for y in ast.walk(kws["site_tag_id"]))
+        if tag_ok:
+            r.ok("gate_nonlocal[site_tag_id]", sample={"from_dense": "site_tag_id=" + src_of(kws["site_tag_id"])})
+        else:
+            r.bad(Finding("nonlocal-factorisation", "MatrixProductState.gate_nonlocal", "the gate's sub-MPO is built with from_dense's default site tags, not the state's site_tag_id",
+                          where=where, operand="site_tag_id"))
+        # (ii) cutoff
+        cut_ok = False
+        if "cutoff" in kws and kwparam and any(isinstance(y, ast.Name) and y.id == kwparam for y in ast.walk(kws["cutoff"])):
+            cut_ok = True
+        if kwparam in stars:
+            cut_ok = True
+        for d in stars:
+            for a in ast.walk(f.node):
+                if isinstance(a, ast.Assign) and any(isinstance(t, ast.Subscript) and isinstance(t.value, ast.Name) and t.value.id == d and const_value(t.slice, None) == "cutoff" for t in a.targets) \
+                        and kwparam and any(isinstance(y, ast.Name) and y.id == kwparam for y in ast.walk(a.value)):
+                    cut_ok = True
+        if cut_ok:
+            r.ok("gate_nonlocal[cutoff]", sample={"from_dense": "receives the caller's cutoff"})
+        else:
+            r.bad(Finding("nonlocal-factorisation", "MatrixProductState.gate_nonlocal",
+                          "the gate's sub-MPO is built with from_dense's own default cutoff: the caller's cutoff (e.g. 0.0 for an exact application) does not reach the "
+                          "factorisation of the gate, weak interaction terms are dropped", where=where, operand="cutoff"))
+    return r
